@@ -79,3 +79,175 @@ def c17(ctx, rep):
         rep.violation("decode sweep length mismatch", {"go": len(a), "model": len(b)}, found=False)
     # (b) run-time correspondence with invalid bytes at every position class
     run_corr(ctx, rep, [("utf8", 300, 6000)], fields=["out", "val", "errs", "trace"], oracle=c17_oracle)
+
+# ------------------------------------------------------------------ known findings (run-time)
+def replay_runtime_known(ctx, k):
+    """A known finding reproduces when, on its witness, the implementation still shows the
+    recorded behaviour AND the faithful model agrees with the implementation."""
+    path = os.path.join(C.VERIF, k["witness"])
+    with open(path) as f:
+        lines = [l.rstrip("\n") for l in f if l.startswith("(")]
+    from .props import same_on
+    model = corr.run_model(ctx.sc, ctx.model(), ctx.tables(), lines, tag="kf_model")
+    div = [l for l in lines if model[corr.case_id(l)].get("out") in corr.NONTERM]
+    impl = corr.run_impl(ctx.sc, ctx.hosts(), [l for l in lines if l not in div], 4000)
+    impl.update(corr.run_impl(ctx.sc, ctx.hosts(), div, 1500))
+    fields = k.get("fields", ["out", "val", "errs"])
+    for l in lines:
+        cid = corr.case_id(l)
+        if not same_on(["out", "val", "errs", "trace", "cnt"], model.get(cid, {}), impl.get(cid, {})):
+            return False
+    kind = k.get("replay")
+    if kind == "ref_mismatch":
+        ref = corr.run_model(ctx.sc, ctx.model(), ctx.tables(), lines, extra="-ref", tag="kf_ref")
+        return any(not same_on(fields, impl.get(corr.case_id(l), {}), ref.get(corr.case_id(l), {})) for l in lines)
+    if kind == "diverges":
+        return all(impl.get(corr.case_id(l), {}).get("out") in corr.NONTERM for l in lines)
+    if kind == "pair_mismatch":
+        a, b = impl.get(corr.case_id(lines[0]), {}), impl.get(corr.case_id(lines[1]), {})
+        return not same_on(fields, a, b)
+    return False
+
+def known_quirks_for(prop_id):
+    return {k["quirk"]: k["id"] for k in C.known_findings().get("findings", [])
+            if k["property"] == prop_id and k.get("status") == "known"}
+
+ALL_FIELDS = ["out", "val", "errs", "cnt", "maxfail", "gs", "trace"]
+
+# ------------------------------------------------------------------ C01
+@prop("C01", replay_known=replay_runtime_known)
+def c01(ctx, rep):
+    run_corr(ctx, rep, [("c01", 500, 12000), ("class", 150, 3000)], fields=["out", "val", "errs"],
+             ref_fields=["out", "val"], known_quirks=known_quirks_for("C01"))
+
+# ------------------------------------------------------------------ C02
+def c02_oracle(case_line, impl, model):
+    """Independent of model and Ref: every action event's text is input[off:off+len] and its
+    position's offset is a rune boundary consistent with line/col counted in Python."""
+    if impl.get("out") in corr.NONTERM or not impl.get("trace"):
+        return None
+    data = corr.case_input(case_line)
+    for ev in impl["trace"].split(";"):
+        parts = dict(p.split("=", 1) for p in ev.split(":")[1:] if "=" in p)
+        if not ev.startswith("A"):
+            continue
+        text = bytes.fromhex(parts.get("t", ""))
+        l, c_, off = (int(x) for x in parts["p"].split("."))
+        if data[off:off + len(text)] != text:
+            return "action text is not the input slice at its position: %s" % ev
+        pre = data[:off]
+        # line = 1 + newlines up to and including the rune at off; col = runes since the last newline
+        upto = data[:off + 1] if off < len(data) else data
+        line = 1 + upto.count(b"\n")
+        if line != l:
+            return "action pos line %d but %d newlines precede/at offset %d: %s" % (l, line - 1, off, ev)
+    return None
+
+@prop("C02", replay_known=replay_runtime_known)
+def c02(ctx, rep):
+    run_corr(ctx, rep, [("c02", 500, 12000)], fields=["out", "val", "trace"],
+             ref_fields=["out", "val", "trace"], oracle=c02_oracle, known_quirks=known_quirks_for("C02"))
+
+# ------------------------------------------------------------------ C05
+@prop("C05", replay_known=replay_runtime_known)
+def c05(ctx, rep):
+    run_corr(ctx, rep, [("c05", 500, 12000)], fields=["out", "val", "trace", "gs"],
+             ref_fields=["out", "val", "trace_noctx", "gs"], known_quirks=known_quirks_for("C05"))
+
+# ------------------------------------------------------------------ C11
+def c11_oracle(case_line, impl, model):
+    if impl.get("out") in corr.NONTERM:
+        return None
+    e = impl.get("errs", "")
+    if "BADTYPE" in e or "BADELEM" in e or "BADWRAP" in e:
+        return "returned error is not a list of *parserError wrapping the original error: %s" % e
+    es = errs_of(impl)
+    if len(set(es)) != len(es):
+        return "duplicate messages in the returned error list: %r" % es
+    o = corr.case_opts(case_line)
+    for m in es:
+        pre = (bytes.fromhex(o["file"][1:]).decode() + ":") if len(o["file"]) > 1 else ""
+        if not m.startswith(pre) or not ERR_POS.search(m):
+            return "error without file / line:col (offset) prefix: %r" % m
+    if impl.get("out", "").startswith("panic:") and o["recover"]:
+        return "a panic escaped Parse although Recover is on"
+    return None
+
+@prop("C11", replay_known=replay_runtime_known)
+def c11(ctx, rep):
+    run_corr(ctx, rep, [("c11", 500, 12000)], fields=["out", "val", "errs"],
+             ref_fields=["out", "val", "errs"], oracle=c11_oracle, known_quirks=known_quirks_for("C11"))
+
+# ------------------------------------------------------------------ C12
+@prop("C12", replay_known=replay_runtime_known)
+def c12(ctx, rep):
+    run_corr(ctx, rep, [("c12", 600, 15000)], fields=["out", "errs", "maxfail"],
+             ref_fields=["out", "errs", "maxfail"], known_quirks=known_quirks_for("C12"))
+
+# ------------------------------------------------------------------ C14
+@prop("C14", replay_known=replay_runtime_known)
+def c14(ctx, rep):
+    run_corr(ctx, rep, [("c14", 500, 12000)], fields=["out", "val", "errs", "trace"],
+             ref_fields=["out", "val", "errs", "trace_noctx"], known_quirks=known_quirks_for("C14"))
+
+# ------------------------------------------------------------------ C16
+MAXEXPR_MSG = "max number of expressions parsed"
+
+def c16_oracle(case_line, impl, model):
+    o = corr.case_opts(case_line)
+    n = o["maxexpr"]
+    if n <= 0:
+        return None
+    out = impl.get("out", "")
+    if out in corr.NONTERM:
+        return "MaxExpressions(%d) but Parse did not return (%s)" % (n, out)
+    cnt = int(impl.get("cnt", "0"))
+    if cnt > n + 1:
+        return "evaluated %d expressions with MaxExpressions(%d)" % (cnt, n)
+    if cnt == n + 1:
+        reported = any(m.endswith(MAXEXPR_MSG) for m in errs_of(impl)) or \
+            (out.startswith("panic:") and bytes.fromhex(out[6:]).decode("utf-8", "replace") == MAXEXPR_MSG)
+        if not reported:
+            return "budget exhausted but the 'max number of expressions parsed' error is not reported"
+    return None
+
+def c16_derive(lines):
+    """twin of every budgeted case without the budget is added by the generator profile; here:
+    nothing to derive (kept for symmetry)."""
+    return []
+
+@prop("C16", replay_known=replay_runtime_known)
+def c16(ctx, rep):
+    run_corr(ctx, rep, [("c16", 500, 12000)], fields=["out", "val", "errs", "cnt"],
+             ref_fields=["out", "val", "errs", "cnt"], oracle=c16_oracle, known_quirks=known_quirks_for("C16"),
+             classify=c16_classify)
+    # a budget that is not exhausted must not change the result: re-run those cases unbounded
+    unb = []
+    for cid, l in rep.case_lines.items():
+        o = corr.case_opts(l)
+        io = rep.impl_obs.get(cid, {})
+        if o["maxexpr"] > 0 and io.get("out") == "ret" and int(io.get("cnt", "0")) <= o["maxexpr"] \
+           and not any(m.endswith(MAXEXPR_MSG) for m in errs_of(io)):
+            i = l.index("(opts ")
+            j = l.index(")", i)
+            f = l[i:j].split(" ")
+            f[6] = "0"
+            unb.append(l[:i] + " ".join(f) + l[j:])
+    unb = unb[: ctx.q(400, 5000)]
+    impl2 = corr.run_impl(ctx.sc, ctx.hosts(), unb, 3000)
+    from .props import same_on
+    for l in unb:
+        cid = corr.case_id(l)
+        if not same_on(["out", "val", "errs", "cnt", "trace", "gs"], impl2.get(cid, {}), rep.impl_obs.get(cid, {})):
+            rep.violation("result under an unexhausted budget differs from the unbounded parse",
+                          {"case": l, "bounded": rep.impl_obs.get(cid), "unbounded": impl2.get(cid)}, found=True)
+    rep.cov["unexhausted_budget_pairs"] = len(unb)
+
+def c16_classify(case_line, impl, model, problem):
+    """Memoize(true) + budget + no return: the known uncharged-memo-hit divergence, provided the
+    model with exactly that quirk repaired does return on this case (checked by run_corr through
+    known_quirks when Ref applies; here for memoised cases outside Ref's scope)."""
+    o = corr.case_opts(case_line)
+    if "did not return" in problem and o["memo"] and model.get("out") in corr.NONTERM:
+        return "C16-MEMO-NOCHARGE"
+    return None
